@@ -35,7 +35,7 @@ LEVEL_NOTE = ("Trusted: Coq kernel, translator (sizes/shifts/limits), Go harness
 THEOREMS = ["dec_enc", "cmp_enc", "float_compare_value", "cmp_enc_float32", "cmp_enc_float64", "float_compare_nan",
             "decimal_compare_scale_invariant", "tuple_roundtrip", "tuple_count", "new_tuple_canonical", "new_tuple_drops_trailing_nulls",
             "new_tuple_injective", "tuple_compare_spec", "build_plain_is_new_tuple", "build_repr_independent_partial",
-            "vi_roundtrip", "oracle_on_model", "build_repr_independent_refuted", "consts_pinned"]
+            "vi_roundtrip", "builder_reuse_is_fresh", "builder_history_canonical", "oracle_on_model", "build_repr_independent_refuted", "consts_pinned"]
 REFUTED = ["build_repr_independent_refuted"]
 RULE = ("tuple descriptors of 1-12 columns over all modelled encodings with random nullability, two rows per case (second row = "
         "perturbation of the first: equal, one field changed, trailing NULLs added/removed, or independent); values are boundary values "
@@ -46,7 +46,7 @@ ASSUMPTIONS = ["NULL only in nullable columns (Build panics otherwise)",
                "adaptive contents stay below the 4000-byte blob chunk size (the chunked comparison is C16's model)",
                "decimal exponents within +-60 so that exact comparison stays cheap",
                "tuple data within MaxTupleDataSize and at most MaxTupleFields columns"]
-REQUIRED_TAGS = ["null-field", "trailing-null", "all-null", "cmp-lt", "cmp-eq", "cmp-gt", "signed-negative", "string", "decimal", "date",
+REQUIRED_TAGS = ["history", "buildprefix-then-reuse", "reuse-with-unset-field", "null-field", "trailing-null", "all-null", "cmp-lt", "cmp-eq", "cmp-gt", "signed-negative", "string", "decimal", "date",
                  "float", "adaptive-inline", "adaptive-outline", "adaptive-normalised", "sweep8", "fast-access", "canonical-pair"]
 
 KNOWN_KEY_F9 = "TupleBuilder.BuildPermissive:small-outline-kept"
@@ -252,6 +252,68 @@ def gen_tuple_case(rng):
     return c
 
 
+PLAIN_HIST = [e for e in ENCS if e not in ("stradapt", "bytesadapt")]
+
+
+def gen_history_case(rng):
+    """One reused builder: random interleavings of puts on random subsets of columns, Build / BuildPermissive / BuildPrefix(k) /
+    BuildPrefixNoRecycle(k) / Recycle. All columns nullable, plain encodings."""
+    ncols = rng.choice([2, 3, 3, 4, 5, 6])
+    types = [{"e": rng.choice(PLAIN_HIST if rng.random() < 0.5 else ["int64", "int32", "string", "bytes", "uint8"]), "n": True} for _ in range(ncols)]
+    hist = []
+    for _ in range(rng.choice([2, 3, 4, 5])):
+        cols = [i for i in range(ncols) if rng.random() < rng.choice([0.3, 0.6, 0.9])]
+        rng.shuffle(cols)
+        for i in cols:
+            hist.append({"op": "put", "i": i, "c": gen_value(rng, types[i]["e"])})
+            if rng.random() < 0.08:
+                hist.append({"op": "put", "i": i, "c": gen_value(rng, types[i]["e"])})      # overwrite
+        r = rng.random()
+        if r < 0.35:
+            hist.append({"op": rng.choice(["build", "permissive"])})
+        elif r < 0.75:
+            hist.append({"op": "prefix", "k": rng.randrange(0, ncols + 1) if rng.random() < 0.3 else rng.randrange(1, max(2, len(cols) + 1)) % (ncols + 1)})
+        elif r < 0.88:
+            hist.append({"op": "prefix_nr", "k": rng.randrange(0, ncols + 1)})
+            if rng.random() < 0.5:
+                hist.append({"op": "build"})
+        else:
+            hist.append({"op": "recycle"})
+    hist.append({"op": "build"})
+    a = [None if rng.random() < 0.4 else gen_value(rng, t["e"]) for t in types]
+    b = [None if c is None else dict(c) for c in a]
+    return {"types": types, "target": 2048, "a": a, "b": b, "hist": hist}
+
+
+FIXED_HISTORY = {
+    "types": [{"e": "int64", "n": True}, {"e": "int64", "n": True}, {"e": "string", "n": True}], "target": 2048,
+    "a": [{"k": "z", "v": "7"}, None, None], "b": [{"k": "z", "v": "7"}, None, None],
+    "hist": [{"op": "put", "i": 0, "c": {"k": "z", "v": "1"}}, {"op": "put", "i": 1, "c": {"k": "z", "v": "2"}},
+             {"op": "put", "i": 2, "c": {"k": "b", "b": [115, 116, 97, 108, 101]}}, {"op": "prefix", "k": 1},
+             {"op": "put", "i": 0, "c": {"k": "z", "v": "7"}}, {"op": "build"}]}
+
+
+def history_tags(case):
+    """Epochs = runs of puts between resets."""
+    t = []
+    prev_set, cur_set = set(), set()
+    after_prefix_with_more = False
+    for h in case.get("hist") or []:
+        if h["op"] == "put":
+            cur_set.add(h["i"])
+            continue
+        produces = h["op"] in ("build", "permissive", "prefix", "prefix_nr")
+        if produces and after_prefix_with_more:
+            t.append("buildprefix-then-reuse")
+        if produces and prev_set - cur_set:
+            t.append("reuse-with-unset-field")
+        if h["op"] == "prefix_nr":
+            continue
+        after_prefix_with_more = h["op"] == "prefix" and any(i >= h["k"] for i in cur_set)
+        prev_set, cur_set = (cur_set if cur_set else prev_set), set()
+    return sorted(set(t))
+
+
 def gen_f9_case(rng):
     """Small tuple with an adaptive value: supplied inline vs as (length, address)."""
     e = rng.choice(["stradapt", "bytesadapt"])
@@ -315,6 +377,9 @@ def gen_cases(rng, tier):
     else:
         sw = gen_sweep_cases(16, ["int16", "uint16", "enum"])
         cases += [sw[i] for i in sorted(rng.sample(range(len(sw)), 9))] + [sw[0], sw[511], sw[512], sw[1023], sw[1024], sw[-1]]
+    cases.append(dict(FIXED_HISTORY))
+    for _ in range(60 if tier == "quick" else 3000):
+        cases.append(gen_history_case(rng))
     for _ in range(8 if tier == "quick" else 200):
         cases.append(gen_f9_case(rng))
     for _ in range(10 if tier == "quick" else 1500):
@@ -365,26 +430,41 @@ def cq_field(f):
     return "None" if f is None else "(Some %s)" % cq_bytes(f)
 
 
+def cq_hop(h):
+    op = h["op"]
+    if op == "put":
+        return "(HPut %d%%nat %s)" % (h["i"], cq_sval(h["c"]))
+    if op in ("build", "permissive"):
+        return "HBuild"
+    if op == "prefix":
+        return "(HPrefix %d%%nat)" % h["k"]
+    if op == "prefix_nr":
+        return "(HPrefixNR %d%%nat)" % h["k"]
+    return "HRecycle"
+
+
 def coq_case(case, out):
     o = out.get("obs")
     types = cq_list("(%s, %s)" % (COQ_ENC[t["e"]], cq_bool(t["n"])) for t in case["types"])
     n = len(case["types"])
     if o is None:
         # panic / harness error: an observation no model agrees with and the oracle rejects
-        inp = "{| i_types := %s; i_target := %d; i_a := %s; i_b := %s |}" % (
-            types, case["target"], cq_list(cq_cell(c, [0] * 20) for c in case["a"]), cq_list(cq_cell(c, [0] * 20) for c in case["b"]))
+        inp = "{| i_types := %s; i_target := %d; i_a := %s; i_b := %s; i_hist := %s |}" % (
+            types, case["target"], cq_list(cq_cell(c, [0] * 20) for c in case["a"]), cq_list(cq_cell(c, [0] * 20) for c in case["b"]),
+            cq_list(cq_hop(h) for h in case.get("hist") or []))
         return ("(%s, {| o_a := [9]; o_same := false; o_a_out := [8]; o_b := [7]; o_count := 99999; o_fields := []; o_dec := []; "
-                "o_cmp := 9%%Z; o_cmp_ba := 9%%Z; o_cmp_nofast := 9%%Z |})") % inp
+                "o_cmp := 9%%Z; o_cmp_ba := 9%%Z; o_cmp_nofast := 9%%Z; o_hist := [[9]] |})") % inp
     aa = o["addrs_a"] or [None] * n
     ab = (o["addrs_b"] or []) + [None] * n
-    inp = "{| i_types := %s; i_target := %d; i_a := %s; i_b := %s |}" % (
+    inp = "{| i_types := %s; i_target := %d; i_a := %s; i_b := %s; i_hist := %s |}" % (
         types, case["target"], cq_list(cq_cell(c, aa[i]) for i, c in enumerate(case["a"])),
-        cq_list(cq_cell(c, ab[i]) for i, c in enumerate(case["b"])))
+        cq_list(cq_cell(c, ab[i]) for i, c in enumerate(case["b"])), cq_list(cq_hop(h) for h in case.get("hist") or []))
     dec = cq_list("None" if d is None else "(Some %s)" % cq_sval(d) for d in o["dec"])
     obs = ("{| o_a := %s; o_same := %s; o_a_out := %s; o_b := %s; o_count := %d; o_fields := %s; o_dec := %s; "
-           "o_cmp := %s; o_cmp_ba := %s; o_cmp_nofast := %s |}") % (
+           "o_cmp := %s; o_cmp_ba := %s; o_cmp_nofast := %s; o_hist := %s |}") % (
         cq_bytes(o["a"]), cq_bool(o["same"]), cq_bytes(o["a_out"]), cq_bytes(o["b"]), o["count"],
-        cq_list(cq_field(f) for f in o["fields"]), dec, cq_Z(o["cmp"]), cq_Z(o["cmp_ba"]), cq_Z(o["cmp_nofast"]))
+        cq_list(cq_field(f) for f in o["fields"]), dec, cq_Z(o["cmp"]), cq_Z(o["cmp_ba"]), cq_Z(o["cmp_nofast"]),
+        cq_list(cq_bytes(t) for t in (o.get("hist") or [])))
     return "(%s, %s)" % (inp, obs)
 
 
@@ -441,6 +521,9 @@ def classify(case, out):
         t.append("prefix-descriptor")
     if not o["same"]:
         t.append("variant-differs")
+    if case.get("hist"):
+        t.append("history")
+        t += history_tags(case)
     return t
 
 
@@ -468,6 +551,13 @@ def match_known(finding, case, out):
 
 def shrink_candidates(case):
     n = len(case["types"])
+    if case.get("hist"):
+        h = case["hist"]
+        for i in range(len(h) - 1):
+            c = dict(case)
+            c["hist"] = h[:i] + h[i + 1:]
+            yield c
+        return
     if case.get("sweep") or case.get("bn"):
         return
     for i in range(n):
